@@ -55,6 +55,8 @@ def sle_case(draw, method):
     if method == 'mals':
         c['threshold'] = draw(st.sampled_from([0, 1e-12, 1e-12]))
         c['max_rank'] = draw(st.sampled_from([None, None, None, 1, 2, 3]))
+    if c['cplx'] and gk != 'exact' and draw(st.sampled_from([False, True])):
+        c['dtype_mix'] = draw(st.sampled_from([[False, True, False], [False, False, True], [True, False, False], [False, True, True], [True, True, False]]))
     return c
 
 
@@ -62,6 +64,11 @@ def build_problem(c):
     rng = np.random.default_rng(c['seed'])
     dims, cplx = c['dims'], c['cplx']
     d, N = len(dims), int(np.prod(c['dims']))
+    # mixed dtypes among the operands of a complex problem (real operator with a complex right-hand side, ...): [op, rhs, guess]
+    mix = c.get('dtype_mix') if (cplx and c['guess'] != 'exact') else None
+    cplx_op, cplx_rhs, cplx_guess = (mix if mix else [cplx] * 3)
+    cplx_all = cplx
+    cplx = cplx_op
     if c['op'] == 'dense':
         lam = np.exp(rng.uniform(0, np.log(c['kappa']), N))
         A = dense.herm(rng, N, cplx, lam)
@@ -77,21 +84,21 @@ def build_problem(c):
     A = (A + A.conj().T) / 2
     op = TT(dense.op_cores(A, dims))
 
-    def rnd_tt(ranks):
-        return [build.rand_array(rng, (ranks[i], dims[i], 1, ranks[i + 1]), cplx) for i in range(d)]
+    def rnd_tt(ranks, cp=None):
+        return [build.rand_array(rng, (ranks[i], dims[i], 1, ranks[i + 1]), cplx_all if cp is None else cp) for i in range(d)]
 
     if c['guess'] == 'exact':
         xc = rnd_tt(c['xranks'])
         xs = dense.matrix(xc).reshape(-1)
         b = A @ xs
         rhs = TT(dense.vec_cores(b, dims))
-        g = TT(dense.gauge(xc, rng, cplx))
+        g = TT(dense.gauge(xc, rng, cplx_all))
     else:
         if c['rhs'] == 'dense':
-            b = build.rand_array(rng, (N,), cplx)
+            b = build.rand_array(rng, (N,), cplx_rhs)
             rhs = TT(dense.vec_cores(b, dims))
         else:
-            bc = rnd_tt([1] + [2] * (d - 1) + [1])
+            bc = rnd_tt([1] + [2] * (d - 1) + [1], cplx_rhs)
             b = dense.matrix(bc).reshape(-1)
             rhs = TT(bc)
         xs = np.linalg.solve(A, b)
@@ -101,7 +108,7 @@ def build_problem(c):
             ranks = [1] * (d + 1)
         else:
             ranks = c['ranks']
-        g = TT(rnd_tt(ranks))
+        g = TT(rnd_tt(ranks, cplx_guess))
     sc = 10.0 ** c.get('scale_exp', 0)
     if sc != 1.0:
         # the solution is linear in the right-hand side: rescale rhs, exact solution and guess together
@@ -136,6 +143,8 @@ def body(c):
     lab = {c['method'], 'guess_' + c['guess'], c['solver'], 'op_' + c['op']}
     if c['cplx']:
         lab.add('complex')
+        if c.get('dtype_mix') and c['guess'] != 'exact':
+            lab.add('mixed_operand_dtypes')
     if d == 1:
         lab.add('order1')
     if c.get('scale_exp', 0):
